@@ -97,7 +97,7 @@ impl rustc_driver::Callbacks for Facts {
     fn after_analysis<'tcx>(&mut self, _c: &Compiler, tcx: TyCtxt<'tcx>) -> Compilation {
         let out_path = std::env::var("T2N_FACTS_OUT").expect("T2N_FACTS_OUT");
         let nonce = std::env::var("T2N_NONCE").unwrap_or_default();
-        let doc = rustc_middle::ty::print::with_no_trimmed_paths!({
+        let doc = rustc_middle::ty::print::with_no_visible_paths!(rustc_middle::ty::print::with_no_trimmed_paths!({
             let bodies = hirdump::dump_bodies(tcx);
             let mir = mirdump::dump_mir(tcx);
             let items = items::dump_items(tcx);
@@ -111,7 +111,7 @@ impl rustc_driver::Callbacks for Facts {
                 ("mir", mir),
                 ("items", items),
             ])
-        });
+        }));
         let mut s = String::with_capacity(1 << 24);
         doc.write(&mut s);
         std::fs::write(&out_path, s).expect("write facts");
